@@ -786,7 +786,12 @@ def check_number_format(ctx, rep, files=("encoding/zinc/encode.rs",)):
                 n += 1
                 key = "numfmt:%s#%d" % (b.short, seen)
                 seen += 1
-                if tr == "Display" and d["precision"] is None and d["width"] is None and not d["flags"]:
+                vd = repr(G.describe(b, vop)) if isinstance(vop, dict) else "?"
+                if isinstance(vop, dict) and not re.fullmatch(r"&?_1\**(\.[A-Za-z_0-9]+)+\**", vd):
+                    # what is written is a stored field itself, sign included: a magnitude computed from it (abs, negation, rounding)
+                    # is another number (|-0.0| loses the sign of zero, which the reader restores from the text)
+                    rep.bad("T-NUMFMT", "T-NUMFMT:numfmt:%s:computed" % b.short, b.where(bi), "the f64 that is written is %s, a value computed from the field rather than the field: the text denotes a different number for some values (signed zero, rounding)" % vd[:100])
+                elif tr == "Display" and d["precision"] is None and d["width"] is None and not d["flags"]:
                     rep.ok("T-NUMFMT", key, b.where(bi), "f64 written with plain {} (shortest digits that read back to the same f64)")
                 else:
                     rep.bad("T-NUMFMT", "T-NUMFMT:numfmt:%s" % b.short, b.where(bi), "an f64 is written through %s with width=%s precision=%s flags=%s: the text no longer determines the same f64" % (tr, d["width"], d["precision"], d["flags"]))
